@@ -12,7 +12,7 @@
    content of the files not mentioned in the hypotheses (stale files included). *)
 From Coq Require Import ZArith List Bool Lia.
 From IBL.lib Require Import PyInt.
-From IBL.C02 Require Import Model Proofs Chunks.
+From IBL.C02 Require Import Model Proofs Chunks OpenJoint.
 Import ListNotations.
 Open Scope Z_scope.
 
@@ -372,13 +372,48 @@ Print Assumptions C02_object_calls_succeed.
 Theorem C02_object_warning_iff_stale_size : forall w o,
   1 <= w_n w -> 1 <= w_nc w -> w_nch w = w_n w -> o_ns o = w_n w ->
   exists o', r_open w o = Some o' /\ o_ns o' = w_n w /\
-    (o_warn o' = true <-> (o_file o = DBin /\ o_nbytes o <> 2 * w_n w * w_nc w)).
+    (o_warn o' = true <-> (o_file o = DBin /\ o_nbytes o <> 2 * w_n w * w_nc w /\ w_iw w = false)).
 Proof.
   intros w o Hn Hc Hh Hs.
   destruct (r_open_ok w o (conj Hn (conj Hc Hh)) Hs) as [o' [E [H1 [_ [_ [_ H2]]]]]].
   exists o'. auto.
 Qed.
 Print Assumptions C02_object_warning_iff_stale_size.
+
+(* Transparency of the SHAPE when the meta file is wrong about the length
+   (interrupted acquisition, chopped file), for either ignore_warnings:
+   a freshly constructed Reader — on x.bin or on x.cbin — exposes the true
+   sample count after open(), whatever count ns0 the meta file claims (longer,
+   shorter or right); the size-mismatch warning is logged iff the claim is
+   wrong and ignore_warnings is off.  So Reader(x.cbin).shape = Reader(x.bin).shape
+   = (n, nc) for every ns0 and every flag (integer-level model; the float
+   arithmetic of fileTimeSecs is the next theorem).                          *)
+Theorem C02_shape_transparent_any_meta : forall w ns0,
+  1 <= w_n w -> 1 <= w_nc w -> w_nch w = w_n w ->
+  (exists ob, r_open w (r_init w DBin ns0) = Some ob /\ o_ns ob = w_n w /\ o_raw ob = RawMemmap /\
+              o_warn ob = negb (ns0 =? w_n w) && negb (w_iw w)) /\
+  (exists oc, r_open w (r_init w DCbin ns0) = Some oc /\ o_ns oc = w_n w /\ o_raw oc = RawMtscomp /\
+              o_warn oc = negb (ns0 =? w_n w) && negb (w_iw w)).
+Proof.
+  intros w ns0 Hn Hc Hh. assert (Hw : wgood w) by (repeat split; assumption).
+  destruct (r_open_any_meta w DBin ns0 Hw) as [ob [E1 [H1 [_ [H2 H3]]]]].
+  destruct (r_open_any_meta w DCbin ns0 Hw) as [oc [E2 [H4 [_ [H5 H6]]]]].
+  split; [exists ob|exists oc]; auto.
+Qed.
+Print Assumptions C02_shape_transparent_any_meta.
+
+(* Joint with C11 (IBL.C11.Model.open_cbin / open_bin / ns_meta, Flocq binary64;
+   IBL.C11.Proofs.open_cbin_exposes, open_offline_floor): for every fileTimeSecs
+   value t in the meta file that Reader.ns can convert, every sampling rate in
+   [2^-64, 2^64], n <= 2^50 frames and both values of ignore_warnings on either
+   side, Reader(x.cbin).shape = Reader(x.bin).shape = (n, nc).               *)
+Theorem C02_cbin_shape_eq_bin_shape : forall n nc t fs ns0 (iw_cbin iw_bin : bool),
+  1 <= n <= 2 ^ 50 -> 1 <= nc -> IBL.C11.Proofs.fs_ok fs ->
+  IBL.C11.Model.ns_meta (Some t) fs = IBL.C11.Model.NsOk ns0 ->
+  reader_shape iw_cbin true n nc (Some t) fs = Some (n, nc) /\
+  reader_shape iw_bin false n nc (Some t) fs = Some (n, nc).
+Proof. exact cbin_shape_eq_bin_shape. Qed.
+Print Assumptions C02_cbin_shape_eq_bin_shape.
 
 (* What is still not refreshed: compress_file(keep_original=False) switches
    file_bin to x.cbin and keeps the size of x.bin in nbytes.  While the object
